@@ -66,7 +66,10 @@ class VReactor(SelectReactor):
     def doIteration(self, timeout):
         self.iterations += 1
         if self.iterations > 10000:
-            raise WouldBlockForever("more than 10000 reactor iterations")
+            # (the reactor's main loop logs and swallows whatever doIteration raises: end the loop)
+            self.blocked_forever = "more than 10000 reactor iterations"
+            self.crash()
+            return
         if self.threadCallQueue:
             # the waker would make select() return at once
             return
@@ -80,9 +83,12 @@ class VReactor(SelectReactor):
         if timeout is None:
             if not self.running:
                 return
-            # nothing scheduled, no I/O can happen: a real reactor would sleep forever
-            self.blocked_forever = True
-            raise WouldBlockForever("reactor has nothing to wait for")
+            # nothing scheduled, no I/O can happen: a real reactor would sleep forever.  (The main
+            # loop logs and swallows whatever doIteration raises, so the loop is ended instead and
+            # the harness reports the hang.)
+            self.blocked_forever = "nothing scheduled and nothing that could wake the reactor: it would sleep for ever"
+            self.crash()
+            return
         self._vnow += timeout + (SLACK if timeout > 0 else 0.0)
 
     GRID = 0.5  # all virtual delays used by the harnesses are multiples of this
